@@ -11,14 +11,14 @@ import (
 
 // modelInfo locates the Model type and its entry points by role.
 type modelInfo struct {
-	named      *types.Named
-	fParams    int // field index of the map[string]tensor.Tensor weights
-	fProto     int // field index of *onnx.ModelProto
-	fGetter    int
-	run        *ssa.Function
-	ctors      []*ssa.Function // functions returning *Model
-	newModel   *ssa.Function   // the constructor that builds the struct
-	validator  *ssa.Function
+	named     *types.Named
+	fParams   int // field index of the map[string]tensor.Tensor weights
+	fProto    int // field index of *onnx.ModelProto
+	fGetter   int
+	run       *ssa.Function
+	ctors     []*ssa.Function // functions returning *Model
+	newModel  *ssa.Function   // the constructor that builds the struct
+	validator *ssa.Function
 }
 
 func (c *Ctx) findModel() *modelInfo {
